@@ -3,7 +3,7 @@ package corpus
 // KitchenSink is the hand-written schema set that puts every constructor in every position the
 // properties name.  Package root is filled in by the caller.
 func KitchenSink(packageRoot string) *Schema {
-	const ns = "ks.t"
+	const ns = "ks.kt"
 	q := func(n string) string { return ns + "." + n }
 	s := &Schema{Name: "ks", PackageRoot: packageRoot}
 	rec := func(name string, includes []string, fields ...Field) *TypeDef {
@@ -49,7 +49,7 @@ func KitchenSink(packageRoot string) *Schema {
 		Opt("oas", A(P("string"))), Opt("oml", M(R(q("Leaf")))), Opt("oaa", A(A(P("float32")))))
 	rec("Defaults", nil,
 		Def("dcol", R(q("Color")), `"GREEN"`), Def("dfx", R(q("F4")), `"abÿd"`), Def("dtr", R(q("TString")), `"t"`), Def("dti", R(q("TInt64")), `-5`),
-		Def("dleaf", R(q("Leaf")), `{"s":"x"}`), Def("du", R(q("U")), `{"int":5}`), Def("dul", R(q("U")), `{"ks.t.Leaf":{"s":"in union"}}`),
+		Def("dleaf", R(q("Leaf")), `{"s":"x"}`), Def("du", R(q("U")), `{"int":5}`), Def("dul", R(q("U")), `{"ks.kt.Leaf":{"s":"in union"}}`),
 		Def("dal", A(R(q("Leaf"))), `[{"s":"a"},{"s":"b","n":1}]`), Def("dea", A(P("int32")), `[]`), Def("dem", M(P("string")), `{}`), Def("dm", M(A(P("int32"))), `{"k":[1,2],"":[]}`),
 		Def("das", A(P("string")), `["","a,b","(c)"]`), Def("df", P("float64"), `-0.0000001`), Def("dbl", P("bool"), `false`), F("req", P("string")))
 	rec("NestedDefaults", nil, F("d", R(q("Defaults"))), Opt("od", R(q("Defaults"))), F("ad", A(R(q("Defaults")))), F("leaf", R(q("Leaf"))))
